@@ -194,6 +194,9 @@ func runC14(c *Ctx) {
 		for i := 0; i < 2 && (c14Prop == "C14" || c14Prop == "C06"); i++ {
 			cases = append(cases, c14Case{Kind: "set-after-sweep", Nth: i})
 		}
+		for i := 0; i < 3 && c14Prop == "C14"; i++ {
+			cases = append(cases, c14Case{Kind: "stale-expiration-rewrite", Nth: i})
+		}
 		var wg sync.WaitGroup
 		for i := range cases {
 			if (i+round)%c.NParts != c.Part {
@@ -216,6 +219,8 @@ func runC14(c *Ctx) {
 					c14AfterClear(c, cs)
 				case "set-after-sweep":
 					c14SetAfterSweep(c, cs)
+				case "stale-expiration-rewrite":
+					c14StaleRewrite(c, cs)
 				}
 			}(cases[i])
 		}
@@ -841,6 +846,9 @@ func runC07Directed(c *Ctx) {
 				wg.Add(1)
 				go func(sb int, stream uint64) { defer wg.Done(); c07Dropped(c, sb, stream) }(sb, uint64(round*10+j))
 			}
+			for j, rd := range []int{1, 4, 8} {
+				c07ReaderRace(c, rd, uint64(round*10+j))
+			}
 		}
 		idx := 0
 		for _, pos := range []string{"after-grab", "before-check"} {
@@ -1223,4 +1231,133 @@ func c14SetAfterSweep(c *Ctx, cs c14Case) {
 		}
 	}
 	r.DistinctKey("set-after-sweep/%v", costs)
+}
+
+// c14StaleRewrite: a SetWithTTL of a resident key computes its expiration, is then delayed inside the user's
+// KeyToHash for more than one bucket duration, and reaches the store while a sweep is in progress (held right after
+// it detached its buckets, or before/after a key's check). The expiration it carries lies in a bucket the running
+// sweep covers. The entry is expired, so it must be reclaimed - exactly once, cost released - once a later sweep has
+// completed (bounded progress as in the other directed cases).
+func c14StaleRewrite(c *Ctx, cs c14Case) {
+	r := c.R
+	r.Eval(1)
+	cs.Position = []string{"after-grab", "before-check", "between-check-and-removal"}[cs.Nth%3]
+	c.J.Case(cs)
+	var gateOn atomic.Bool
+	release := make(chan struct{})
+	inHook := make(chan struct{}, 1)
+	const nkeys = 3
+	ctlKey := nkeys
+	cfg := lab.CacheCfg{NumCounters: 1000, MaxCost: 1 << 20, BufferItems: 64, IgnoreInternalCost: true, KeyKind: "uint64", NKeys: nkeys + 1, TTLTick: 1,
+		HashHook: func(i int) {
+			if i == ctlKey && gateOn.CompareAndSwap(true, false) {
+				inHook <- struct{}{}
+				<-release
+			}
+		}}
+	l, err := lab.NewLab(cfg)
+	if err != nil {
+		r.Inconc(1)
+		return
+	}
+	defer l.Forget()
+	e := &c14Env{c: c, cs: cs, l: l, cl: l.NewClient()}
+	e.sw = newSweepCtl(l, false, nil)
+	cl := e.cl
+	released := false
+	defer func() {
+		if !released {
+			close(release)
+		}
+		e.sw.releaseHold()
+		l.C.Close()
+	}()
+	ctlVal := cl.NextVal(ctlKey)
+	cl.Set(ctlKey, ctlVal, 1, 0)
+	cl.Wait()
+	alignToBucket()
+	const ttl = 300 * time.Millisecond
+	t0 := time.Now()
+	targets := map[uint64]bool{}
+	for k := 0; k < nkeys; k++ {
+		if !cl.Set(k, cl.NextVal(k), 1, ttl) {
+			r.Inconc(1)
+			return
+		}
+		targets[l.Hashes[k][0]] = true
+	}
+	cl.Wait()
+	bucket := uint64(ristretto.VerifStorageBucket(t0.Add(ttl)))
+	// the delayed re-write of the control key: its expiration is fixed now (t0 + a few ms + 10 ms)
+	writer := l.NewClient()
+	newVal := writer.NextVal(ctlKey)
+	gateOn.Store(true)
+	setDone := make(chan bool, 1)
+	go func() { setDone <- writer.Set(ctlKey, newVal, 1, 10*time.Millisecond) }()
+	select {
+	case <-inHook:
+	case <-time.After(10 * time.Second):
+		r.Inconc(1)
+		return
+	}
+	e.tr("re-write of the control key (ttl 10 ms) is parked inside KeyToHash; its expiration lies in bucket <= %d", bucket)
+	switch cs.Position {
+	case "after-grab":
+		e.sw.arm(ristretto.VPSweepGrabbed, 1, bucket, nil)
+	case "before-check":
+		e.sw.arm(ristretto.VPSweepKey, 1+cs.Nth%nkeys, 0, targets)
+	default:
+		e.sw.arm(ristretto.VPSweepChecked, 1+cs.Nth%nkeys, 0, targets)
+	}
+	if !e.sw.waitFor(func() bool { return e.sw.reached }, 6*time.Second) {
+		r.Inconc(1)
+		r.Note("C14 stale re-write: sweep hold point %s never reached", cs.Position)
+		return
+	}
+	e.tr("sweep held at %s", cs.Position)
+	close(release)
+	released = true
+	var ok bool
+	select {
+	case ok = <-setDone:
+	case <-time.After(10 * time.Second):
+		r.Inconc(1)
+		return
+	}
+	e.tr("the parked SetWithTTL returned %v while the sweep is held", ok)
+	s0 := e.sw.sweepCount()
+	e.sw.releaseHold()
+	if !ok {
+		r.Inconc(1)
+		return
+	}
+	// two more complete sweeps: the first one may already have been under way when the entry was filed
+	if !e.sw.waitFor(func() bool { return e.sw.sweeps >= s0+3 }, 8*time.Second) {
+		r.Inconc(1)
+		return
+	}
+	cl.Wait()
+	l.C.Pause()
+	snap := l.C.Snapshot()
+	l.C.Resume()
+	ev, ex := valueEvents(l.CallbacksSince(0), newVal)
+	_, acc := snap.KeyCosts[l.Hashes[ctlKey][0]]
+	stored := false
+	for _, en := range snap.Entries {
+		if en.Value == newVal {
+			stored = true
+		}
+	}
+	r.Obs("stale_rewrite_cases", 1)
+	if ev != 1 || ex != 1 || acc || stored {
+		idx := "none"
+		for b, keys := range snap.Buckets {
+			if _, in := keys[l.Hashes[ctlKey][0]]; in {
+				idx = fmt.Sprint(b)
+			}
+		}
+		e.fail("stale-rewrite-not-reclaimed/"+cs.Position, fmt.Sprintf("a re-write with ttl 10 ms was delayed inside KeyToHash and reached the store while the sweep was %s; its expiration passed seconds ago and %d sweeps have completed since, but OnEvict=%d OnExit=%d stored=%v still-accounted=%v (indexed in bucket %s, sweep frontier %d)", cs.Position, e.sw.sweepCount()-s0, ev, ex, stored, acc, idx, snap.LastCleaned))
+		return
+	}
+	r.DistinctKey("stale-rewrite/%s/reclaimed", cs.Position)
 }
